@@ -252,7 +252,9 @@ def run_backend(tier, seed, backend, n=None, nproc=16):
     corpus = {"numpy": [{"values": [["bool", True], ["int", 1]], "npdtype": "object", "stream": "corpus:F21"},
                         {"values": [["complex", "nan", 0]], "stream": "corpus:fixed-F32"},
                         {"values": [["str", "no"], ["str", "yes"]], "stream": "corpus:fixed-F20"},
-                        {"values": [["complex", 1, 0], ["complex", 2, 0]], "stream": "corpus:fixed-F19"}],
+                        {"values": [["complex", 1, 0], ["complex", 2, 0]], "stream": "corpus:fixed-F19"},
+                        {"values": [["nan"], ["str", "1+2j"]], "npdtype": "object", "stream": "corpus:fixed-F18n"},
+                        {"values": [["str", "nan"], ["str", "NaN"]], "stream": "corpus:all-nan-strings"}],
               "list": [{"values": [["bool", False], ["str", "1.5"]], "stream": "corpus:F22b"},
                        {"values": [["str", "true"], ["str", "false"]], "stream": "corpus:fixed-F22a"}]}
     recipes = corpus.get(backend, []) + recipes
